@@ -28,6 +28,7 @@ func init() {
 			{Name: "rangeexpr-case-removed", File: f, Old: "\tcase *ast.RangeExpr:", New: "\tcase *ast.BadExpr2:", Expect: "load/github.com/goplus/xgo/printer"},
 			{Name: "lambda-rhs-paren-weakened", File: f, Old: "\t\tif x.RhsHasParen {\n\t\t\tp.print(token.LPAREN)", New: "\t\tif x.RhsHasParen && len(x.Rhs) != 1 {\n\t\t\tp.print(token.LPAREN)", Expect: "flag-gates-syntax/RhsHasParen"},
 			{Name: "binary-right-assoc", File: f, Old: "p.expr1(x.Y, prec+1, depth+1)", New: "p.expr1(x.Y, prec, depth+1)", Expect: "binary/right-operand"},
+			{Name: "prefix-from-printer-state", File: "printer/printer.go", Old: "\t\tp.output = append(p.output, tabwriter.Escape)\n\t}\n\n\tif debug {", New: "\t\tp.output = append(p.output, tabwriter.Escape)\n\t\tif p.lastTok == token.CSTRING {\n\t\t\tp.output = append(p.output, 'c')\n\t\t}\n\t}\n\n\tif debug {", Expect: "literal-prefix/printer.print"},
 			{Name: "unary-op-ignored", File: f, Old: "\t\t\t// no parenthesis needed\n\t\t\tp.print(x.Op)\n", New: "\t\t\t// no parenthesis needed\n\t\t\tp.print(token.SUB)\n", Expect: "print-field/UnaryExpr.Op"},
 		},
 	})
@@ -74,6 +75,31 @@ func runC19(c *core.Check) {
 	// parenthesisation must then keep the tree.
 	precedenceRules(c, prog)
 	flagGates(c, prog, ppk, apk)
+	// the c"…" / py"…" prefix of a string literal is part of the literal's own text: it is decided from the node's Kind where
+	// the BasicLit is turned into text, not from printer state (p.lastTok) at write time — comments flushed in between are
+	// written through the same routine
+	if pr := core.FindFuncDecl(ppk, "printer.print"); pr != nil {
+		okPrefix := false
+		ast.Inspect(pr.Body, func(n ast.Node) bool {
+			cc, ok := n.(*ast.CaseClause)
+			if !ok || len(cc.List) != 1 || core.ExprStr(cc.List[0]) != "*ast.BasicLit" {
+				return true
+			}
+			txt := nows(nodeText(&ast.BlockStmt{List: cc.Body}))
+			okPrefix = strings.Contains(txt, `data="c"+data`) && strings.Contains(txt, `data="py"+data`) && strings.Contains(txt, "data=x.Value")
+			return true
+		})
+		usesState := false
+		if ws := core.FindFuncDecl(ppk, "printer.writeString"); ws != nil {
+			ast.Inspect(ws.Body, func(n ast.Node) bool {
+				if sel, ok := n.(*ast.SelectorExpr); ok && sel.Sel.Name == "lastTok" {
+					usesState = true
+				}
+				return true
+			})
+		}
+		c.Decide(okPrefix && !usesState, "literal-prefix", "printer.print", pr.Pos(), "the c/py prefix is attached to the BasicLit's text from its own Kind", "the c\"…\" / py\"…\" prefix is not attached where the BasicLit becomes text (or writeString consults p.lastTok): a comment written between the previous token and the literal gets the prefix (`x := c/* hi */ c\"abc\"`), and the output no longer parses to the same tree")
+	}
 
 	cats := []struct{ iface, fn string }{{"Expr", "printer.expr1"}, {"Stmt", "printer.stmt"}, {"Spec", "printer.spec"}, {"Decl", "printer.decl"}}
 	c.Floor("print-case", 60)
